@@ -5,6 +5,7 @@ import (
 	"os"
 	"os/exec"
 	"regexp"
+	"runtime/debug"
 	"strings"
 	"time"
 	"unicode/utf8"
@@ -113,6 +114,14 @@ func humanObs(out string) (string, bool) {
 // deepChild: the parse that used to end the process with "fatal error: stack overflow" runs in a
 // child process, so that the parent can report it as a failing input.
 func deepChild() {
+	// quick tier: a 32 MB stack limit instead of Go's 1 GB, so that recursion proportional to the nesting
+	// shows at 300,000 levels (a frame of a recursive walker is > 100 bytes) instead of needing millions;
+	// the bounded recursion of popValue (maxValueDepth frames) must fit. Thorough tier: default limit, 10^6 blocks.
+	nb := 1000000
+	if os.Getenv("BCL_DEEP_TIER") != "thorough" {
+		debug.SetMaxStack(32 << 20)
+		nb = 300000
+	}
 	n := 2000000
 	src := "a = " + strings.Repeat("[", n)
 	for _, ff := range []bool{true, false} {
@@ -126,7 +135,88 @@ func deepChild() {
 	if _, err := bcl.Fmt(src); err == nil {
 		fmt.Println("formatter accepted", n, "nested brackets")
 	}
+	// block nesting: the walker and fragmentsToFile are loops, so any depth must parse; the property's
+	// clauses are evaluated on the whole tree (iteratively), in both modes
+	for i, c := range deepBlockInputs(nb) {
+		if i == 0 || i == 5 {
+			continue // subsumed at this depth by "balanced with statements innermost"
+		}
+		for _, ff := range []bool{true, false} {
+			if msg := deepBlockOracle(c.src, ff, c.wantDepth, c.accepted); msg != "" {
+				fmt.Printf("BLOCKS %s failFast=%v: %s\n", c.name, ff, msg)
+				os.Exit(4)
+			}
+		}
+	}
 	os.Exit(0)
+}
+
+type deepBlockCase struct {
+	name      string
+	src       string
+	wantDepth int  // nesting of the first-child chain of the returned tree
+	accepted  bool // no diagnostics expected
+}
+
+func deepBlockInputs(n int) []deepBlockCase {
+	open := strings.Repeat("a {\n", n)
+	cl := strings.Repeat("}\n", n)
+	return []deepBlockCase{
+		{"balanced", open + cl, n, true},
+		{"balanced with statements innermost", open + "x = 1\n| d\n" + cl, n, true},
+		{"unclosed", open, n, false},
+		{"one closer too many", open + cl + "}\n", n, false},
+		{"syntax error innermost", open + "x = = 1\n" + cl, 0, false},
+		{"tagged blocks on one line each", strings.Repeat("a b:c {\n", n) + cl, n, true},
+	}
+}
+
+// deepBlockOracle evaluates C11's clauses on a deeply nested input without recursion; "" = fine.
+func deepBlockOracle(src string, ff bool, wantDepth int, accepted bool) (msg string) {
+	defer func() {
+		if p := recover(); p != nil {
+			msg = fmt.Sprint("panic: ", p)
+		}
+	}()
+	ll := lineLens(src)
+	r := bcl.ParseFile(src, ff)
+	if accepted != (r.ErrKind == "") {
+		return fmt.Sprintf("accepted=%v, ErrKind=%q diags=%d", accepted, r.ErrKind, len(r.Diags))
+	}
+	if r.ErrKind != "" && (r.ErrKind != "with-source" || len(r.Diags) == 0) {
+		return fmt.Sprintf("error without diagnostics list (%s)", r.ErrKind)
+	}
+	if r.ErrKind == "" && r.TreeNil {
+		return "nil tree without error"
+	}
+	for _, d := range r.Diags {
+		if !d.HasPos || !inside(ll, d.Start) || !inside(ll, d.End) || !notAfter(d.Start, d.End) {
+			return fmt.Sprintf("diagnostic position %v-%v outside the input or inverted", d.Start, d.End)
+		}
+	}
+	depth := 0
+	for b := r.Body; len(b) > 0 && b[0].Kind == "block"; b = b[0].Body {
+		depth++
+	}
+	if depth != wantDepth {
+		return fmt.Sprintf("tree nesting %d, want %d", depth, wantDepth)
+	}
+	for _, b := range r.Body {
+		for _, nd := range stmtNodes(b) {
+			if nd.Kind == 13 || nd.Kind == 14 {
+				continue
+			}
+			if !inside(ll, nd.Start) || !inside(ll, nd.End) || !notAfter(nd.Start, nd.End) {
+				return fmt.Sprintf("node kind %d position %v-%v outside the input or inverted", nd.Kind, nd.Start, nd.End)
+			}
+		}
+	}
+	if r.ErrKind == "with-source" {
+		if _, ok := r.HumanString(2); !ok {
+			return "HumanString returned nothing"
+		}
+	}
+	return ""
 }
 
 func runC11(cfg *vh.Config) error {
@@ -134,7 +224,7 @@ func runC11(cfg *vh.Config) error {
 		deepChild()
 	}
 	res := vh.NewResult("C11", cfg.Seed)
-	res.Rule = "inputs: every sequence of <=3 tokens over a 24-entry alphabet (all token types, a space, a character no token starts with, an unterminated string) rendered with single spaces, every sequence of <=2 rendered adjacent; windows of the repository's .j5s/.bcl/fixture files, unmutated and with 1-3 token deletions/insertions/swaps/duplications/truncations and multi-byte characters at line ends; grammar-generated files; every lexer sub-automaton (string, regex, block/line comment, description, number, stray character) x every continuation (valid escapes, invalid escape, lone backslash) x every ending (closed, newline, end of input without newline) in six grammatical positions; an unexpected token of every literal kind with a literal around the 20-byte cut of the message, ASCII and multi-byte, in ten error sites; every token-boundary prefix of generated statements (EOF in every grammatical position); array values nested 1500 (also in Coq) / 9999/10000/10001/10003 deep (the bound of popValue) and 2,000,000 deep in a child process; random token soup incl. invalid UTF-8; both failFast values; non-trivial = distinct non-empty input"
+	res.Rule = "inputs: every sequence of <=3 tokens over a 24-entry alphabet (all token types, a space, a character no token starts with, an unterminated string) rendered with single spaces, every sequence of <=2 rendered adjacent; windows of the repository's .j5s/.bcl/fixture files, unmutated and with 1-3 token deletions/insertions/swaps/duplications/truncations and multi-byte characters at line ends; grammar-generated files; every lexer sub-automaton (string, regex, block/line comment, description, number, stray character) x every continuation (valid escapes, invalid escape, lone backslash) x every ending (closed, newline, end of input without newline) in six grammatical positions; an unexpected token of every literal kind with a literal around the 20-byte cut of the message, ASCII and multi-byte, in ten error sites; every token-boundary prefix of generated statements (EOF in every grammatical position); array values nested 1500 (also in Coq) and maxValueDepth-1 / maxValueDepth / maxValueDepth+1 deep, the constant read from the code (in Coq in the thorough tier; the model's boundary at the generated constant is a compiled lemma), and 2,000,000 deep in a child process; blocks nested 1, 2, 3, 50, 200 (Coq), 10,000 and 300,000 / 1,000,000 (child process, 32 MB / default stack limit) deep: balanced, unclosed, one closer too many, syntax error innermost, with tags/qualifiers; random token soup incl. invalid UTF-8; both failFast values; non-trivial = distinct non-empty input"
 	cf := &vh.CasesFile{
 		Header: "From Coq Require Import String List NArith ZArith.\nFrom J5V.model Require Import BclErrpos BclCorr.",
 		Type:   "c11case",
@@ -203,6 +293,23 @@ func runC11(cfg *vh.Config) error {
 			inputs = append(inputs, input{randomSoup(r, 10), "soup", true})
 		}
 	}
+	// ---- stream 4': coverage-guided corpus (c11cov.go): inputs that reached a new basic block of the parser packages
+	for _, k := range covGuided(cfg, res, corpus) {
+		inputs = append(inputs, input{k.src, "covguided", k.emit})
+	}
+
+	// ---- stream 4u: the byte level (pinned): valid multi-byte and invalid UTF-8 in every literal kind and position
+	for i, s := range utf8Corpus() {
+		inputs = append(inputs, input{s, "utf8", cfg.Tier == "thorough" || i%3 == int(cfg.Seed%3)})
+	}
+
+	// ---- stream 4m (pinned): a token-level syntax error together with a block-structure problem among the other
+	// statements (stray closer, unclosed block, an error on a header line whose closer then is stray), in every order:
+	// collect-all must still report the fail-fast diagnostic first
+	for _, s := range []string{"a = \ngood Foo\n}\n", "}\nk = = 1\n", "k = = 1\n}\n", "a {\nx = = 1\n", "x = = 1\na {\n", "h = {\n}\n",
+		"a b = {\n\tk = 1\n}\n", "}\n}\nx = #\n", "a {\n}\n}\nb = [1 2]\nc {\n", "a {\n\tb {\n\t\tk = = 2\n\t}\n", "| d\n}\na = \"x\n"} {
+		inputs = append(inputs, input{s, "modes", true})
+	}
 
 	// ---- stream 4a: every lexer sub-automaton x every continuation x every ending (closed, newline, end of input),
 	// in several grammatical positions; all through the oracle, a sample through the model
@@ -255,34 +362,75 @@ func runC11(cfg *vh.Config) error {
 		}
 	}
 
-	// ---- stream 4c: array nesting around the bound of popValue (maxValueDepth = 10000)
-	// (the model is evaluated in Coq only on the 1500-deep case: its lexer recomputes the remaining length per token)
-	for _, n := range []int{1500, 9999, 10000, 10001} {
-		inputs = append(inputs, input{"a = " + strings.Repeat("[", n) + strings.Repeat("]", n) + "\n", "deep", n == 1500})
+	// ---- stream 4c: array nesting around the bound of popValue; the bound is read from the code
+	// (maxValueDepth through the shim), so the boundary corpus moves with the constant.
+	// The model is evaluated in Coq on the 1500-deep case in the quick tier (its lexer recomputes the
+	// remaining length per token: ~40 s per boundary case) and exactly at the bound in the thorough tier;
+	// the boundary of the MODEL at the generated constant is also a compiled lemma
+	// (BclDepthProofs.max_value_depth_boundary).
+	mvd := bcl.MaxValueDepth()
+	res.Distribution["max_value_depth"] = mvd
+	inputs = append(inputs, input{"a = " + strings.Repeat("[", 1500) + strings.Repeat("]", 1500) + "\n", "deep", true})
+	if mvd >= 2 && mvd <= 200000 {
+		for _, n := range []int{mvd - 1, mvd, mvd + 1} {
+			inputs = append(inputs, input{"a = " + strings.Repeat("[", n) + strings.Repeat("]", n) + "\n", "deep", false})
+			if cfg.Tier == "thorough" {
+				// the model exactly at the bound (about 15 s per case in Coq): projected result only, the input is built in Coq
+				for _, ff := range []bool{true, false} {
+					pr := bcl.ParseFile("a = "+strings.Repeat("[", n)+strings.Repeat("]", n)+"\n", ff)
+					cf.Terms = append(cf.Terms, fmt.Sprintf("CDeep %d %d %s %s %d %s", n, n, vh.BoolTerm(ff), vh.BoolTerm(pr.TreeNil), len(pr.Body), diagsTerm(pr.Diags)))
+					res.Cases = append(res.Cases, vh.CaseRec{Case: caseNo, Stream: "deep", Input: fmt.Sprintf("a = %d x [ %d x ] failFast=%v", n, n, ff), Impl: fmt.Sprint(pr.Diags)})
+					caseNo++
+				}
+			}
+			// the bound counts nesting, not brackets: siblings at the deepest level do not add depth
+			inputs = append(inputs, input{"a = " + strings.Repeat("[", n-1) + "[1], [2, [3]]" + strings.Repeat("]", n-1) + "\n", "deep", false})
+		}
+		inputs = append(inputs, input{"a = " + strings.Repeat("[", mvd+3), "deep", false})
+		inputs = append(inputs, input{"t " + "x:" + "y = " + strings.Repeat("[", mvd+1) + "\n", "deep", false})
+	} else {
+		res.Fail(vh.Failure{Case: caseNo, Stream: "deep", Sig: "C11 maxValueDepth outside the range the stack argument covers", Clause: "never panics (stack)", Input: fmt.Sprintf("maxValueDepth = %d", mvd), Got: "the nesting bound must stay between 2 and 200000 (goroutine stack)"})
 	}
-	inputs = append(inputs, input{"a = " + strings.Repeat("[", 10003), "deep", false})
-	{
-		// 2,000,000 nested brackets, in a child process (a stack overflow is fatal, recover cannot catch it)
-		cmd := exec.Command(os.Args[0], "-prop", "C11", "-out", cfg.Out)
-		cmd.Env = append(os.Environ(), "BCL_DEEP_CHILD=1")
-		done := make(chan error, 1)
-		var outb []byte
-		go func() { var e error; outb, e = cmd.CombinedOutput(); done <- e }()
+	// ---- stream 4d: block nesting (the walker and fragmentsToFile are loops; the tree dump is iterative):
+	// shallow depths also through the model, 10^4 through the oracle here, 10^6 in the child process below
+	for _, n := range []int{1, 2, 3, 50, 200} {
+		for _, c := range deepBlockInputs(n) {
+			inputs = append(inputs, input{c.src, "deepblocks", n <= 50 || cfg.Tier == "thorough"})
+		}
+	}
+	for _, c := range deepBlockInputs(10000) {
+		inputs = append(inputs, input{c.src, "deepblocks", false})
+	}
+	// 2,000,000 nested brackets and 1,000,000 nested blocks, in a child process (a stack overflow is fatal,
+	// recover cannot catch it); it runs beside the main loop and is collected after it
+	type childRes struct {
+		err error
+		out []byte
+	}
+	childDone := make(chan childRes, 1)
+	childCmd := exec.Command(os.Args[0], "-prop", "C11", "-out", cfg.Out)
+	childCmd.Env = append(os.Environ(), "BCL_DEEP_CHILD=1", "BCL_DEEP_TIER="+cfg.Tier)
+	go func() { o, e := childCmd.CombinedOutput(); childDone <- childRes{e, o} }()
+	collectChild := func() {
 		select {
-		case e := <-done:
+		case c := <-childDone:
 			res.Count("deep_child")
-			if e != nil {
-				msg := string(outb)
-				if i := strings.Index(msg, "fatal error"); i >= 0 {
+			if c.err != nil {
+				msg := string(c.out)
+				sig := "C11 ParseFile ends the process on deeply nested arrays"
+				if i := strings.Index(msg, "BLOCKS "); i >= 0 {
+					sig = "C11 ParseFile fails on deeply nested blocks"
+					msg = clip(msg[i:], 200)
+				} else if i := strings.Index(msg, "fatal error"); i >= 0 {
 					msg = clip(msg[i:], 120)
 				} else {
 					msg = clip(msg, 200)
 				}
-				res.Fail(vh.Failure{Case: caseNo, Stream: "deep", Sig: "C11 ParseFile ends the process on deeply nested arrays", Clause: "never panics and always terminates", Input: "\"a = \" + 2000000 x \"[\"", Got: fmt.Sprintf("%v: %s", e, msg)})
+				res.Fail(vh.Failure{Case: caseNo, Stream: "deep", Sig: sig, Clause: "never panics and always terminates", Input: "\"a = \" + 2000000 x \"[\", then 300000 (quick) / 1000000 (thorough) nested blocks (balanced, unclosed, extra closer, inner syntax error)", Got: fmt.Sprintf("%v: %s", c.err, msg)})
 			}
-		case <-time.After(120 * time.Second):
-			_ = cmd.Process.Kill()
-			res.Fail(vh.Failure{Case: caseNo, Stream: "deep", Sig: "C11 ParseFile does not terminate", Clause: "always terminates", Input: "\"a = \" + 2000000 x \"[\"", Got: "no result after 120s"})
+		case <-time.After(240 * time.Second):
+			_ = childCmd.Process.Kill()
+			res.Fail(vh.Failure{Case: caseNo, Stream: "deep", Sig: "C11 ParseFile does not terminate", Clause: "always terminates", Input: "\"a = \" + 2000000 x \"[\", then 1000000 nested blocks", Got: "no result after 240s"})
 		}
 		caseNo++
 	}
@@ -427,6 +575,8 @@ inputLoop:
 		}
 	}
 
+	collectChild()
+
 	// ---- stream 5: humanString on arbitrary (also nonsensical) positions
 	nH := cfg.Scale(250, 3000)
 	for i := 0; i < nH && !aborted; i++ {
@@ -497,5 +647,10 @@ func emitHuman(cf *vh.CasesFile, res *vh.Result, caseNo *int, stream, src string
 	res.Count("human")
 	cf.Terms = append(cf.Terms, fmt.Sprintf("CHuman %s %s %s %s", vh.BytesTerm(src), zlit(ctx), diagsTerm(ds), listTerm(obs)))
 	res.Cases = append(res.Cases, vh.CaseRec{Case: *caseNo, Stream: stream, Input: inS, Impl: strings.Join(obs, " ")})
+	*caseNo++
+	// the whole rendered text, byte for byte (model: BclErrposText.human_text_bytes)
+	res.Count("human_text")
+	cf.Terms = append(cf.Terms, fmt.Sprintf("CHumanText %s %s %s %s", vh.BytesTerm(src), zlit(ctx), diagsTerm(ds), vh.BytesTerm(hg.Val)))
+	res.Cases = append(res.Cases, vh.CaseRec{Case: *caseNo, Stream: stream, Input: inS, Impl: hg.Val})
 	*caseNo++
 }
